@@ -310,6 +310,12 @@ func genC15(g *genCtx) {
 		}
 		g.add(&Case{Kind: kind, Doc: d, Ctx: pickCtx(r, d), Expr: e})
 	}
+	// the cost of drawing the nodes of `*[p][p]…[p]` must not double with every predicate (known finding: it does when
+	// p calls position() or last(): the query tree is copied once per reference to the filtered step)
+	dG := Doc{{Depth: 0, Kind: 'r'}, {Depth: 1, Kind: 'e', Name: "a"}, {Depth: 2, Kind: 'e', Name: "b"}, {Depth: 2, Kind: 'e', Name: "b"}, {Depth: 2, Kind: 'e', Name: "b"}}
+	for _, pr := range []string{"[position()=1]", "[last()]", "[last()=3]", "[position() < 4]", "[@k or true()]", "[1]", "[b or not(b)]", "[count(*) = 0]"} {
+		g.add(&Case{Kind: "growth", Doc: dG, Ctx: Ref{1, -1}, Extra: hx(pr) + ";6;12"})
+	}
 }
 
 // ---- C16 ----
